@@ -24,6 +24,18 @@ ALPHABET = [
 ]
 
 
+# settings given as keywords of Step / Solve instead of through the Set* methods
+KW_ALPHABET = [
+    ['Step'],
+    ['StepKw', {'EvaluationMonitor': 'Monitor'}],
+    ['StepKw', {'StepMonitor': 'Monitor'}],
+    ['StepKw', {'penalty': 'ramp'}],
+    ['SolveKw', {'EvaluationMonitor': 'Monitor'}],
+    ['SetEvaluationLimits', 2, None, True],
+    ['Finalize'],
+]
+
+
 class Oracle(graph.Oracle):
     prop = 'C04'
 
@@ -53,6 +65,15 @@ class Oracle(graph.Oracle):
                 self.mon_prefix = self.mon_prefix + [(x, v) for x, v in log[self.mon_base:len(log)]]
             self.mon_base = len(log)
             self.has_evalmon = True
+        if name in ('StepKw', 'SolveKw') and 'EvaluationMonitor' in op[1]:
+            # the monitor is installed (new=False: it inherits the old records) before the iteration(s) of this call
+            n0 = b['ncalls']
+            if not self.has_evalmon:
+                self.mon_prefix = []
+            else:
+                self.mon_prefix = self.mon_prefix + [(x, v) for x, v in log[self.mon_base:n0]]
+            self.mon_base = n0
+            self.has_evalmon = True
         # ---- (b) evaluation counter = number of real calls, over the whole life
         if a['evals'] != a['ncalls']:
             out.append(({'clause': 'evaluations', 'after_reconf': self._reconf_seen(op)},
@@ -81,6 +102,8 @@ class Oracle(graph.Oracle):
         # ---- (a) best-energy history non-increasing per objective segment; last entry is bestEnergy
         if name in RECONF:
             self.seg_start = len(a['ehist'])
+        if name in ('StepKw', 'SolveKw') and ('penalty' in op[1] or 'constraints' in op[1]):
+            self.seg_start = len(b['ehist'])      # the objective changed before the iteration(s) of this call
         eh = a['ehist']
         seg = eh[self.seg_start:]
         for i in range(1, len(seg)):
@@ -92,7 +115,7 @@ class Oracle(graph.Oracle):
         if eh and a['inner'] and not _same(eh[-1], a['bestE']):
             out.append(({'clause': 'history_last'}, 'energy_history[-1]=%r but bestEnergy=%r' % (eh[-1], a['bestE'])))
         # ---- (e) a stopped run: one (best x, best energy) record per generation, ending in the reported result
-        stopped = (name == 'Solve') or (name == 'Step' and outcome)
+        stopped = name in ('Solve', 'SolveKw') or (name in ('Step', 'StepKw') and outcome)
         if stopped and a['inner']:
             if a['nstep'] != a['gens'] + 1:
                 out.append(({'clause': 'stepmon_len'},
@@ -125,14 +148,15 @@ def _firstdiff(got, want):
 
 
 def shard(item):
-    cfg, depth, prefix = item
+    cfg, depth, prefix = item[:3]
+    alphabet = KW_ALPHABET if (len(item) > 3 and item[3] == 'kw') else ALPHABET
     T = Tally()
     tmp = tempfile.mkdtemp(prefix='c04_')
     try:
-        graph.explore_ops(cfg, ALPHABET, depth, Oracle, T, prefix, tmp)
+        graph.explore_ops(cfg, alphabet, depth, Oracle, T, prefix, tmp)
     finally:
         shutil.rmtree(tmp, ignore_errors=True)
-    T.sample({'cfg': cfg, 'ops': [ALPHABET[i] for i in (list(prefix) + [0] * depth)[:depth]]})
+    T.sample({'cfg': cfg, 'ops': [alphabet[i] for i in (list(prefix) + [0] * depth)[:depth]]})
     T.nontriv(('cfg', sorted(cfg.items()), prefix))
     return T
 
@@ -158,7 +182,10 @@ def run(ctx):
         # quick: all monitor kinds on one cost, all costs with the plain monitor
         cfgs = [c for c in cfgs if c['cost'] == 'sphere' or (c['evalmon'], c['stepmon']) == ('Monitor', 'Monitor')]
     items = [(cfg, depth, (i,)) for cfg in cfgs for i in range(len(ALPHABET))]
-    ctx.bounds = {'depth': depth, 'alphabet': ALPHABET, 'configs': len(cfgs), 'solvers': list(solverlab.SOLVERS),
+    kwcfgs = [c for c in cfgs if c['cost'] == 'sphere' and (c['evalmon'], c['stepmon']) in (('default', 'default'), ('Monitor', 'Monitor'))]
+    items += [(cfg, depth, (i,), 'kw') for cfg in kwcfgs for i in range(len(KW_ALPHABET))]
+    ctx.bounds = {'depth': depth, 'alphabet': ALPHABET, 'keyword_alphabet': KW_ALPHABET, 'keyword_alphabet_configs': len(kwcfgs),
+                  'configs': len(cfgs), 'solvers': list(solverlab.SOLVERS),
                   'histories_per_config': sum(len(ALPHABET) ** d for d in range(1, depth + 1))}
     ctx.rule = ("all operation sequences of length <= depth over the 10-op alphabet for every configuration; a state is the "
                 "canonical snapshot (best, population, energies, counters, monitor contents, call count) after an operation; "
